@@ -61,7 +61,16 @@ def run():
             s['implicit_ctx'] = bool((k // 2) % 2)
     nvia = sum(1 for s in scens if s.get('via_solver'))
     by_id = {s['id']: s for s in scens}
-    outs = nc.run_driver(chk, scens, cfgs, reorder=True, tag='c17')
+    not_run = []
+    if not chk.args.replay and chk.known('C01-ezo-threaded-cache'):
+        # records of this configuration are skipped below while C01's finding
+        # is open (the corrupted memory says nothing about re-ordering), and
+        # the corruption can also hang the child until its alarm: with the
+        # finding open the configuration is not run at all
+        not_run = [c for c in cfgs
+                   if c['cls'] == 'ezo' and c.get('threads', 1) > 1]
+        cfgs = [c for c in cfgs if c not in not_run]
+    outs =nc.run_driver(chk, scens, cfgs, reorder=True, tag='c17')
     files, n = nc.batches(chk, outs, by_id, cfgs, per=200, tag='c17')
     try:
         verdicts, st = tlc.validate_batches('TraceNNPS', 'TraceNNPS.cfg',
@@ -135,6 +144,7 @@ def run():
         records_with_ghost_particles=nghost,
         scenarios_via_solver_reorder_particles=nvia,
         evaluations=len(verdicts), distinct_nontrivial=len(nontrivial),
+        configurations_not_run_open_finding_C01_ezo_threaded_cache=len(not_run),
         rule='a case is one scenario replayed into one re-ordering-capable '
              'NNPS configuration: indices, arrays before/after and neighbour '
              'lists after the next update; non-trivial with >= 3 particles',
